@@ -72,7 +72,7 @@ def write_pkg(d, ns, model, config="", imports=(), versions=()):
 def scenarios(rng, quick):
     """yield (name, builder(dir) -> None) ; every scenario is an INVALID package rooted at <dir>/main"""
     kinds = list(BAD_MODELS)
-    for k in (rng.sample(kinds, 4) if quick else kinds):
+    for k in kinds:
         yield "main:" + k, (lambda d, cfg, k=k: write_pkg(d + "/main", "Main", BASE + BAD_MODELS[k], cfg))
     for k in (["unknown-type", "duplicate-field", "computed-field-type"] if quick else kinds):
         yield "main-2nd-document:" + k, (lambda d, cfg, k=k: write_pkg(d + "/main", "Main", BASE + "---\n" + BAD_MODELS[k], cfg))
@@ -80,7 +80,7 @@ def scenarios(rng, quick):
             write_pkg(d + "/lib", "Lib", "T: int\n---\n# second document\n" + BAD_MODELS[k])
             write_pkg(d + "/main", "Main", BASE, cfg, imports=["../lib"])
         yield "import-2nd-document:" + k, bdoc
-    for k in (["unknown-type", "yaml-syntax", "duplicate-field"] if quick else kinds):
+    for k in (["unknown-type", "yaml-syntax", "duplicate-field", "cycle", "computed-field-type", "generic-arity"] if quick else kinds):
         def b(d, cfg, k=k):
             write_pkg(d + "/lib", "Lib", "T: int\n" + BAD_MODELS[k])
             write_pkg(d + "/main", "Main", BASE, cfg, imports=["../lib"])
